@@ -86,6 +86,23 @@ def top_level_statements(src):
         i += 1
 
 
+FUNCTION_ALIASES = set()
+
+
+def shares_mutable(head):
+    """A pointer, smart pointer or reference wrapper whose pointee is not const: the object it leads to can be
+    changed through it however const the handle itself is (static const std::shared_ptr<Document>)."""
+    m = re.search(r'(shared_ptr|unique_ptr|weak_ptr|reference_wrapper)\s*<\s*([^<>]*(?:<[^<>]*>)?[^<>]*)>', head)
+    if m and not re.search(r'\bconst\b', m.group(2)):
+        return True
+    m = re.search(r'([\w:<>]+)\s*\*', head)
+    if m and m.group(1) in FUNCTION_ALIASES:
+        return False             # a pointer to a function
+    if m and not re.search(r'\bconst\s+[\w:<>]+\s*\*|[\w:<>]+\s+const\s*\*', head):
+        return True
+    return False
+
+
 FUNC_DECL = re.compile(r'^[\w:<>,\s&*~\[\]]+?\b[\w:~]+\s*\((?:[^()]|\([^()]*\))*\)\s*(const|noexcept|override|final|=\s*(0|default|delete)|\s)*$')
 
 
@@ -126,12 +143,16 @@ def scan_file(path, rel):
     src = blank_strings(strip_comments(open(path, encoding='utf-8', errors='replace').read()))
     # drop preprocessor lines
     src = re.sub(r'^\s*#.*$', '', src, flags=re.M)
+    FUNCTION_ALIASES.clear()
+    FUNCTION_ALIASES.update(re.findall(r'using\s+(\w+)\s*=\s*decltype\s*\(\s*\w+\s*\)\s*;', src))
+    FUNCTION_ALIASES.update(re.findall(r'using\s+(\w+)\s*=\s*[^;=]*\([^;]*\)\s*;', src))
     found = []
     for scope, text in top_level_statements(src):
         if re.search(r'\b(static|thread_local)\b', text) and not re.search(r'\bstatic_(cast|assert|visitor)\b', text):
             if looks_like_function(text):
                 continue
-            is_const = bool(re.search(r'\b(const|constexpr)\b', text.split('=')[0].split('(')[0].split('{')[0]))
+            head0 = text.split('=')[0].split('(')[0].split('{')[0]
+            is_const = bool(re.search(r'\b(const|constexpr)\b', head0)) and not shares_mutable(head0)
             found.append((rel, text[:160], is_const, 'static'))
             continue
         if all(s == 'namespace' for s in scope) and rel.endswith(('.cpp', '.cpp.in')):
@@ -141,7 +162,7 @@ def scan_file(path, rel):
                 head = text.split('=')[0].split('{')[0]
                 if re.search(r'\bextern\b', head):
                     continue
-                is_const = bool(re.search(r'\b(const|constexpr)\b', head))
+                is_const = bool(re.search(r'\b(const|constexpr)\b', head)) and not shares_mutable(head)
                 found.append((rel, text[:160], is_const, 'namespace-scope'))
     return found
 
